@@ -791,6 +791,31 @@ impl World {
                 let Some(dp) = self.participant(*p) else { return Res::Skipped("no participant") };
                 Res::Handles(dp.get_discovered_participants().await.map(|v| v.into_iter().map(hd).collect()).map_err(E::from))
             }
+            Op::WatchDiscovered { p, period_us } => {
+                let Some(dp) = self.participant(*p) else { return Res::Skipped("no participant") };
+                let mut last: Option<Vec<Hd>> = None;
+                loop {
+                    if let Ok(v) = dp.get_discovered_participants().await {
+                        let mut set: Vec<Hd> = v.into_iter().map(hd).collect();
+                        set.sort();
+                        let (s, t) = (step(), now_ns());
+                        with_hist(|h| {
+                            h.discovery_polls.entry(*p).or_default().push(t);
+                            if last.as_ref() != Some(&set) {
+                                h.discovery_log.push((s, t, *p, set.clone()));
+                            }
+                        });
+                        last = Some(set);
+                    }
+                    if self.stop_daemons.get() {
+                        return Res::Unit(Ok(()));
+                    }
+                    sleep_ns(*period_us * 1000).await;
+                    if self.stop_daemons.get() {
+                        return Res::Unit(Ok(()));
+                    }
+                }
+            }
             Op::Ignore { p, what, target_kind, target } => crate::ops2::ignore(self, *p, what, target_kind, *target).await,
             Op::SetEnabledStatuses { kind, id, mask } => {
                 let Some(c) = self.cond_of(kind, *id) else { return Res::Skipped("no entity") };
